@@ -24,6 +24,9 @@ CHECKS = {
  "C05": dict(engine="adjust", tech="TLA+ spec (Adjust updates) model-checked by TLC; scenario replay; TLC trace validation of returned update lists",
    text="The update lists returned by Create/Update/StopContainer are compared with the specification's collected updates: one entry per target, exact field maps, own entry last (placeholder iff unchanged), self-update fails, ignore-failure conflicts are dropped entirely (labels C05-updates, C05-selfupdate).",
    ref="5/C05"),
+ "C09": dict(engine="sync", tech="TLA+ spec (SyncChunk) model-checked by TLC incl. a negative control (policy before the repair); TLC-enumerated size profiles replayed as real registrations in child processes; chunk traces validated by TLC (Trace_Sync)",
+   text="SyncChunk.tla is model-checked for every profile of 0-3 pods x 0-11 (14) containers x sizes against the limit (InBounds, Progress, ExactDelivery, CleanFailure, JustifiedFailure, BoundedSends, termination); the transcription of the pre-repair policy must violate it (vacuity guard). Every profile (real multi-megabyte objects against ttRPC's 4 MiB limit, plus thousands of small objects) is one real plugin registration in a child process; the hook-recorded chunk sequence and the plugin's handler call must satisfy the chunk protocol: counts within what remains, correct more flags, progress, exactly one handler call with exactly the supplied state in order and intact, updates returned to the runtime's callback, failure only at the minimum chunk size and without activation, no crash, no hang.",
+   ref="5/C09", note="Trusted base: TLC; hooks syncmsg.send/result; a child process per scenario makes a panic of the runtime side observable."),
  "C13": dict(engine="oci", tech="TLA+ spec (Container.OciApply) with theorems SetWins/Removes/Frame checked by TLC; TLC-enumerated + random (spec, adjustment) pairs replayed on the real generator x R repetitions; TLC trace validation (Trace_Oci)",
    text="OciApply is the specification of Generator.Adjust; TLC checks on every enumerated pair that a set wins over a removal in any list order, that removals take effect and that nothing unnamed changes; every pair is applied 16 (quick) / 64 (thorough) times by the real generator on fresh copies and each result must equal OciApply, the rest of the spec must be unchanged, mounts must come parents-first and all repetitions must be identical (labels C13-result, C13-frame, C13-mount-order, C13-determinism).",
    ref="5/C13", note="Trusted base: TLC; harness/abs OCI projection; device cgroup allow rules added with devices are not compared; rshared/rslave mount options (host mountinfo) are outside the domain."),
@@ -83,6 +86,8 @@ m = {
    "add_only": True,
  },
  "engines": [
+   {"name": "sync", "path": "/verif/lib/sync.py", "serves_properties": ["C09"],
+    "kind_free_text": "TLC (tla/SyncChunk) + real registrations in child processes (harness/syncdrv) + TLC trace validation (tla/Trace_Sync)"},
    {"name": "oci", "path": "/verif/lib/oci.py", "serves_properties": ["C13"],
     "kind_free_text": "TLC (tla/Gen_Oci) + replay on pkg/runtime-tools/generate (harness/ocidrv) + TLC trace validation (tla/Trace_Oci)"},
    {"name": "relay", "path": "/verif/lib/relay.py", "serves_properties": ["C06", "C07", "C08", "C17", "C19"],
